@@ -75,15 +75,53 @@ def _check(prop, tier, seed, replay, work, t0):
         violations.append({"replay": path, "what": "%s: %s %s white=%s black=%s pw=%s pb=%s" % (
             ",".join(v["names"]), rec.get("site"), rec.get("name", ""), rec.get("white"), rec.get("black"),
             [bytes(x) for x in rec.get("pw", [])], [bytes(x) for x in rec.get("pb", [])])})
-    cov = {"states": states, "transitions": trans, "traces_validated_against_impl": nobs, "samples": samples[:4] or [{"cases": ncases}],
+    # ---- the bidirectional replay applies the same filter: DEL / UNLINK / MSET with accepted and rejected keys, single and inside
+    # transactions, must reach the target restricted to the accepted keys (the parser keeps the commands of a unit until it is sent)
+    bdrv = vlib.build_driver("bisyncdrv", work)
+    nb = 64 if tier == "quick" else 640
+    bcmds = [[bdrv, "-filter", "-seed", str(seed), "-n", str(nb), "-max-units", "6", "-crash-stride", "1000000", "-id-base", "7000000",
+              "-shard", str(i), "-shards", str(shards), "-out", os.path.join(work, "b%d.ndjson" % i), "-stats", os.path.join(work, "bs%d.json" % i)]
+             + (["-cluster"] if i % 4 == 3 else []) for i in range(shards)]
+    for rc, out in vlib.run_parallel(bcmds, timeout=3000):
+        if rc != 0:
+            raise vlib.HarnessError("bisyncdrv -filter failed (%d):\n%s" % (rc, out[-3000:]))
+    btrace = os.path.join(work, "btrace.ndjson")
+    bscen = 0
+    with open(btrace, "w") as w:
+        for i in range(shards):
+            bscen += json.load(open(os.path.join(work, "bs%d.json" % i)))["scenarios"]
+            shutil.copyfileobj(open(os.path.join(work, "b%d.ndjson" % i)), w)
+    if bscen == 0:
+        raise vlib.HarnessError("bisyncdrv -filter produced no scenario")
+    bviol, _ = vlib.tlc_trace([os.path.join(SPEC, "trace", "TraceBisync.tla")], "TraceBisync", btrace, work, timeout=3000)
+    blines = open(btrace).read().splitlines() if bviol else []
+    bseen = set()
+    for v in bviol:
+        names = sorted(n for n in v["names"] if n.startswith(prop + "_"))
+        if not names or v["trace"] in bseen or len(violations) >= 10:
+            continue
+        f = vlib.known_match(prop, {"invariant": names[0], "site": "bisync"})
+        if f:
+            known.append(f)
+            continue
+        bseen.add(v["trace"])
+        j = v["line"] - 1
+        while j > 0 and json.loads(blines[j])["ev"] != "Reset":
+            j -= 1
+        path = vlib.save_replay(prop, "bisync%d" % v["trace"], {"property": prop, "invariants": names, "events": [json.loads(x) for x in blines[j:v["line"]]]})
+        violations.append({"replay": path, "what": "%s: bidirectional replay with the key filter prefixKeyBlacklist=[drop:], scenario %d, event %d: %s" % (
+            ",".join(names), v["trace"], v["line"] - j, blines[max(j, v["line"] - 3):v["line"]])})
+    nobs += bscen
+    cov = {"states": states, "transitions": trans, "traces_validated_against_impl": nobs, "bidirectional_filter_scenarios": bscen, "samples": samples[:4] or [{"cases": ncases}],
            "exhaustive": True, "tlc_enumerated_range_configurations": ncases, "configurations_exercised": ncfg,
            "d_layer_runs": druns,
            "explanation": "slot-range lists: exhaustive over <=3 white / <=2 white+1 black ranges with end points in %s, probed at every boundary +-1; "
                           "prefix/db/command rules and DEL/UNLINK/MSET projection: seeded random configurations incl. non-UTF-8 bytes, "
-                          "direct filter calls and end-to-end through parseAofCommand" % pts}
+                          "direct filter calls and end-to-end through parseAofCommand; the same projection through the bidirectional parser and sender "
+                          "(single commands and transactions, standalone and cluster fake)" % pts}
     vlib.write_evidence(prop, tier, seed, "model_checking", cov,
                         ["key positions of the exercised commands are stated independently in the driver's command templates",
                          "reserved namespaces judged: redis-gunyu-checkpoint*, /redis-gunyu* (bisync namespace is covered by C13)",
                          "snapshot-path filtering is exercised by the full-sync checks"],
-                        time.time() - t0, len(viol))
+                        time.time() - t0, len(violations))
     vlib.conclude(prop, violations, known)
